@@ -14,7 +14,7 @@ ASAN  := $(COMMON) -O1 -fsanitize=address -fno-omit-frame-pointer -DSIM_BUILD_NA
 TLS   := $(COMMON) -O1 -DRLBOX_EMBEDDER_PROVIDES_TLS_STATIC_VARIABLES -DSIM_BUILD_NAME='"tls"'
 LIBS := -lpthread -ldl
 
-TARGETS := apptoken abi abi.wide mem mem.p64 mem.pvoid callback callback.tls invoke toctou toctou.asan bulk bulk.asan bulk.nogrant transition.hooks transition.inonly transition.outonly transition.timing transition.both transition.wide threads threads.tsan threads.tls
+TARGETS := apptoken abi abi.wide mem mem.p64 mem.pvoid callback callback.tls invoke toctou toctou.asan bulk bulk.asan bulk.nogrant bulk.wide transition.hooks transition.inonly transition.outonly transition.timing transition.both transition.wide threads threads.tsan threads.tls
 
 all: $(addprefix $(B)/,$(TARGETS))
 
@@ -42,6 +42,8 @@ $(B)/bulk: worlds/bulk.cpp $(HDRS) $(SIMH) | $(B)
 	$(CXX) $(PLAIN) $< -o $@ $(LIBS) -Wl,--wrap=malloc -Wl,--wrap=free
 $(B)/bulk.nogrant: worlds/bulk.cpp $(HDRS) $(SIMH) | $(B)
 	$(CXX) $(PLAIN) -DSIM_NO_GRANT_DENY -DSIM_BUILD_NAME='"nogrant"' $< -o $@ $(LIBS) -Wl,--wrap=malloc -Wl,--wrap=free
+$(B)/bulk.wide: worlds/bulk.cpp $(HDRS) $(SIMH) | $(B)
+	$(CXX) $(PLAIN) -DSIM_WIDE_INT -DSIM_BUILD_NAME='"wide"' $< -o $@ $(LIBS) -Wl,--wrap=malloc -Wl,--wrap=free
 $(B)/bulk.asan: worlds/bulk.cpp $(HDRS) $(SIMH) | $(B)
 	$(CXX) $(ASAN) $< -o $@ $(LIBS) -Wl,--wrap=malloc -Wl,--wrap=free
 
